@@ -31,7 +31,8 @@ HEAD = '''#! unit: %(lc)s.header_round_trip
 #! anchors: %(cls)s::%(cls)s(const uint8_t*, uint32_t), %(cls)s::write_serialization, %(cls)s::header_size%(xanch)s (%(src)s, %(hdr)s), Internals::pdu_from_flag, pdu_flag_to_ether_type, pdu_flag_to_ip_type (src/detail/pdu_helpers.cpp), InputMemoryStream / OutputMemoryStream methods (include/tins/memory_helpers.h)
 #! assumed: the child layer is represented by its class tag and the number of bytes it was parsed from (its own parsing and serialization are that class's units); a child constructor may reject its bytes (the path ends); no user-registered PDU types (pdu_allocator.h registries empty)
 #! replay: c03_headers
-#! define: RT_CLASS_%(cls)s
+#! define: RT_CLASS_%(cls)s TINS_EXC_ALLOWED(e)=(!G_parsing_done&&(e)==EXC_malformed_packet)
+_Bool G_parsing_done;   /* after the constructor returned, any throw (serialization_error, malformed_packet from the output cursor) is an obligation failure: serializing an accepted packet is total */
 //@ include lib/endian.h
 //@ include lib/pdu_real.h
 //@ include lib/ims_real.h
@@ -74,7 +75,9 @@ void h(void) {
   %(cls)s* p = malloc(sizeof(%(cls)s)); __CPROVER_assume(p != NULL);
   p->pdu_base_.inner_pdu_ = NULL; p->pdu_base_.parent_pdu_ = NULL; p->pdu_base_.type_ = CLS_%(cls)s;
   %(parent)s
+  G_parsing_done = 0;
   %(cls)s_ctor(p, b, n);                                   /* accepted inputs only: a throw ends the path */
+  G_parsing_done = 1;
   PDU* c = TINS_INNER(p);
   uint32_t hs = %(cls)s_header_size(p);
   uint32_t ps = c ? c->size_ : 0;
